@@ -564,6 +564,7 @@ func (d *Data) PutData(ctx storage.Context, keyStr string, value []byte) error {
 	if err != nil {
 		return err
 	}
+	dvid.VerifPoint("yield:keyvalue.PutData:before-put")
 	return db.Put(ctx, tk, serialization)
 }
 
@@ -577,6 +578,7 @@ func (d *Data) DeleteData(ctx storage.Context, keyStr string) error {
 	if err != nil {
 		return err
 	}
+	dvid.VerifPoint("yield:keyvalue.DeleteData:before-delete")
 	return db.Delete(ctx, tk)
 }
 
